@@ -36,6 +36,10 @@ var depSources = map[string][]string{
 	"C14": {"container"},
 	"C17": {"container/bytes"},
 	"C18": {"container/iterable"},
+	// D6 only (v_codec_cast.go, depOnlyV): the checks that take the zero-copy conversions of package cast at their word
+	"C15": {"xbinary"},
+	"C16": {"xbinary"},
+	"C19": {"errors"},
 }
 
 const depExplanation = "D1-D5 (helpers of this repository the code above calls and the rules above take at their word, decided on the helpers' own bodies): " +
@@ -70,6 +74,7 @@ func (c *Ctx) depContracts(id string, from ...string) {
 	}
 	usedClasses := map[*types.Var]bool{}
 	usedFns := map[string]*ssa.Function{}
+	usedRepo := map[string]*ssa.Function{} // every function of the repository the code refers to (v_*.go: D6, D7)
 	for _, rel := range from {
 		for _, fn := range c.P.FuncsOf(rel) {
 			ir.Instrs(fn, func(in ssa.Instruction) {
@@ -93,10 +98,17 @@ func (c *Ctx) depContracts(id string, from ...string) {
 						if f.Pkg != nil && isDep[f.Pkg.Pkg.Path()] && f.Object() != nil {
 							usedFns[f.Object().(*types.Func).FullName()] = f
 						}
+						if f.Pkg != nil && strings.HasPrefix(f.Pkg.Pkg.Path(), ir.Module+"/") && f.Object() != nil && f.Parent() == nil {
+							usedRepo[f.Object().(*types.Func).FullName()] = f
+						}
 					}
 				}
 			})
 		}
+	}
+	c.depContractsV(id, usedRepo)
+	if !depRuleOnV(id, "D1") {
+		return
 	}
 	if len(usedClasses) > 0 || usedFns[ir.Module+"/errors.Is"] != nil {
 		if !c.P.HasPkg("errors") {
